@@ -43,11 +43,35 @@ def _struct_names(ctx, L, path, name, sub=""):
     return [n for n, f in core.fields if n is not None]
 
 
+def _slicing_general(ctx):
+    """the per-zone slice adapter takes its bounds exactly from the evaluated count/start/stop/step expressions
+    (a bound of 0 - a keygroup with no active zone - is a value, not a missing one)"""
+    from .sem import straightline_ex, canon_ast
+    path = "smpl_extract/util/constructs.py"
+    rz = ctx.fn(path, "SlicingGeneral._realize", "L6")
+    cx = rz.args.args[1].arg
+    sl = straightline_ex([s_ for s_ in rz.body if not (isinstance(s_, ast.Expr) and isinstance(s_.value, ast.Constant))])
+    ev = {k: f"evaluate(self.{k}, {cx})" for k in ("count", "start", "stop", "step")}
+    want = f"(Slicing(self.subcon, {ev['count']}, {ev['start']}, {ev['stop']}, {ev['step']}, self.pattern), {ev['start']}, {ev['stop']}, {ev['step']})"
+    got = canon_ast(sl["ret"]) if sl["ret"] is not None else None
+    if got is None:
+        raise AnalysisError("L6", where(rz), "SlicingGeneral._realize is not a straight-line computation (unrecognised form)")
+    ctx.ob("L6", rz, "SlicingGeneral realises Slicing(subcon, count, start, stop, step) from the evaluated expressions, unchanged", got == want,
+           "" if got == want else f"returns `{got[:220]}`", inst="slicing-realize")
+    dec = ctx.fn(path, "SlicingGeneral._decode", "L6")
+    sd = straightline_ex([s_ for s_ in dec.body if not (isinstance(s_, ast.Expr) and isinstance(s_.value, ast.Constant))])
+    a = [x.arg for x in dec.args.args]
+    got = canon_ast(sd["ret"]) if sd["ret"] is not None else "?"
+    want = f"self._realize({a[2]})[0]._decode({a[1]}, {a[2]}, {a[3]})"
+    ctx.ob("L6", dec, "SlicingGeneral decodes through the realised Slicing", got == want, "" if got == want else f"returns `{got[:160]}`", inst="slicing-decode")
+
+
 def rule_L6(ctx):
     """header values flow into the displayed dataclasses field by field"""
     L = Layouts(ctx)
     prog = ctx.prog
     seen = 0
+    _slicing_general(ctx)
     for m in prog.modules.values():
         for c in ast.walk(m.tree):
             if isinstance(c, ast.Call) and isinstance(c.func, ast.Name) and c.func.id == "get_common_field_args" and len(c.args) == 2:
